@@ -297,6 +297,8 @@ impl<'a> SpecGen<'a> {
             if self.rng.chance(1, 2) { op.insert("description".into(), json!(*self.rng.pick(DESCS))); }
             if self.rng.chance(1, 5) { op.insert("externalDocs".into(), json!({"url": "https://docs.example.com/op"})); }
             if self.rng.chance(1, 10) { op.insert("summary".into(), json!("same text")); op.insert("description".into(), json!("same text")); }
+            // summary and description are the same text written as block scalars (surrounding blanks and a final line end)
+            if idx % 5 == 3 { op.insert("summary".into(), json!("  the same block text \n")); op.insert("description".into(), json!("  the same block text \n")); self.feat("summary_equals_description_with_blanks"); }
             // a description that begins with the words of the summary and goes on (position-determined, no rng draw)
             if idx % 3 == 1 {
                 if let (Some(su), Some(_)) = (op.get("summary").and_then(|x| x.as_str()).map(|x| x.to_string()), op.get("description")) {
